@@ -12,6 +12,7 @@ package balenum
 import (
 	"fmt"
 	"os"
+	"runtime"
 	"runtime/debug"
 	"sort"
 	"strings"
@@ -65,14 +66,25 @@ var defaultIDs = []string{"m0", "m1", "m2", "m3", "m4", "m5", "m6", "m7"}
 var defaultInstanceIDs = []string{"i9", "i8", "i7", "i6", "i5", "i4", "i3", "i2"}
 
 // TuneGC trades memory for speed: the checks allocate many tiny short-lived
-// objects (encoded metadata, plans) with a tiny live heap, so collect only
-// when the heap reaches limit bytes.
+// objects (encoded metadata, plans) on top of a static live heap (the block
+// list), so collect only when the heap has grown by limit bytes over what is
+// live now. Call it after the static data has been built.
 func TuneGC(limit int64) {
+	runtime.GC()
+	var ms runtime.MemStats
+	runtime.ReadMemStats(&ms)
+	limit += int64(ms.HeapAlloc) + int64(ms.HeapAlloc)/4
 	if v := os.Getenv("BALENUM_GC_LIMIT"); v != "" {
 		fmt.Sscan(v, &limit)
 		if limit <= 0 {
 			return
 		}
+	}
+	if v := os.Getenv("BALENUM_GOGC"); v != "" {
+		var pct int
+		fmt.Sscan(v, &pct)
+		debug.SetGCPercent(pct)
+		return
 	}
 	debug.SetGCPercent(-1)
 	debug.SetMemoryLimit(limit)
